@@ -32,7 +32,7 @@ ASSUMPTIONS = ['Table 9-10 / action list as transcribed in DESIGN.md appendix A'
                'AE-6 always accepts (the library never rejects at provider level); A-P-ABORT may be '
                'represented by any abort indication object']
 REQUIRED = ['oracle.step-compared', 'monitor.pdata-discipline', 'monitor.idle-closed',
-            'monitor.timer-iff-waiting']
+            'monitor.timer-iff-waiting', 'oracle.coalesced-run', 'sim.mid-transfer-injections']
 
 DEPTH = {'quick': 4, 'thorough': 6}
 WALKS = {'quick': 4000, 'thorough': 120000}
@@ -74,10 +74,27 @@ def alphabet(m, full_user=True):
         if kind == 'A-ASSOCIATE-RQ':
             continue                     # re-association on an idle provider: excluded
         syms += USER_SYMS[kind]
+        if kind == 'P-DATA-TF' and m.conn_open:
+            # a two-fragment message with a peer stimulus arriving between its fragments
+            syms += ['uDATA2!' + p for p in MID_PEER if not (p == 'pDATA' and m.partial)]
     return syms
 
 
+MID_PEER = ['pABORT', 'pRELRQ', 'pDATA', 'pUNK', 'pCLOSE']
+
+
 def apply_model(m, sym):
+    if '!' in sym:
+        # first fragment, then the peer's stimulus, then the second fragment - which the user
+        # queued when it was still legal; if it no longer is, nothing is defined for it
+        peer = sym.split('!')[1]
+        m.user('P-DATA-TF', primitive=('uDATA2', 0))
+        apply_model(m, peer)
+        try:
+            m.user('P-DATA-TF', primitive=('uDATA2', 1))
+        except refmodel.UndefinedCell:
+            pass
+        return
     if sym in F.PEER_KIND:
         m.peer_pdu(F.PEER_KIND[sym], **F.PEER_INFO.get(sym, {}))
     elif sym in ('pCLOSE', 'pRESET'):
@@ -264,7 +281,13 @@ def build_script(role, hist):
         script.append(('user', obj))
         expected_bytes['uRQ'] = raws
     for sym in hist:
-        if sym in F.PEER:
+        if '!' in sym:
+            obj, raws = F.user_primitive('uDATA2')
+            script.append(('user', obj))
+            expected_bytes['uDATA2'] = raws
+            peer = sym.split('!')[1]
+            script.append(('mid', ('close',) if peer == 'pCLOSE' else ('bytes', F.PEER[peer])))
+        elif sym in F.PEER:
             script.append(('bytes', F.PEER[sym]))
         elif sym == 'pCLOSE':
             script.append(('close',))
@@ -286,6 +309,9 @@ def expand_wire(model_wire, expected_bytes):
     out = []
     for entry in model_wire:
         if entry[0] == 'user':
+            if isinstance(entry[2], tuple):
+                out.append(('raw', expected_bytes[entry[2][0]][entry[2][1]], entry[1]))
+                continue
             for raw in expected_bytes[entry[2]]:
                 out.append(('raw', raw, entry[1]))
         else:
@@ -343,6 +369,7 @@ def run_history(res, case, verbose=False):
             res.notes['cells_seen'].append(key)
     res.count('sim.quiescent-points', sim.quiescent_points)
     res.count('sim.blocking-recvs', sim.blocking_recvs)
+    res.count('sim.mid-transfer-injections', sim.mid_delivered)
     judge(res, case, sim, expected, expected_bytes, hist, role)
     coalesced_variant(res, case, expected, hist, role)
 
